@@ -292,7 +292,11 @@ def _sync_list_tensor_states(
             process_group=process_group,
         )
         if result is None:
-            # all ranks state_data is empty, no need to sync
+            # all ranks state_data is empty, no need to sync: the receiving ranks
+            # get the empty list
+            if rank is None or dist.get_rank(group=process_group) == rank:
+                for gathered_state in gathered_states:
+                    gathered_state[metric_name][state_name] = []
             return
         dtype, shape = result  # unpack results
     else:
